@@ -131,11 +131,12 @@ func dropFixture() {
 	}
 }
 
-func (f *fixture) create(ctr string, ann map[string]string) (*api.CreateContainerResponse, error) {
+func (f *fixture) create(ctr string, ann map[string]string, rq *ReqCtx) (*api.CreateContainerResponse, error) {
 	req := &api.CreateContainerRequest{
 		Pod:       &api.PodSandbox{Id: "pod0", Name: "pod0", Uid: "uid0", Namespace: "default", Annotations: ann},
 		Container: &api.Container{Id: "ctr0", PodSandboxId: "pod0", Name: ctr},
 	}
+	rq.apply(req)
 	return f.a.CreateContainer(context.Background(), req)
 }
 
@@ -144,7 +145,7 @@ func (f *fixture) healthy() error {
 	rsp, err := f.create("hc", map[string]string{
 		"devices.nri.io/container.hc":            "- path: /dev/hc\n  type: c\n  major: 1\n  minor: 3\n",
 		"ulimits.nri.containerd.io/container.hc": "- type: RLIMIT_NOFILE\n  hard: 4096\n  soft: 1024\n",
-	})
+	}, nil)
 	if err != nil {
 		return fmt.Errorf("health request failed: %v", err)
 	}
@@ -410,6 +411,15 @@ func judge(f *fixture, c C20Case) ev.Outcome {
 		}
 	}
 
+	if c.Req != nil {
+		for k, v := range c.Req.PodAnnotations {
+			if _, dup := ann[k]; dup || isPluginKey(k) {
+				return ev.Outcome{Excluded: "pod_annotation_is_plugin_key"}
+			}
+			ann[k] = v
+		}
+	}
+
 	// expectation
 	app := map[string]*Ann{}
 	wantErr := ""
@@ -486,9 +496,10 @@ func judge(f *fixture, c C20Case) ev.Outcome {
 			competing = true
 		}
 	}
-	o.NonTrivial = competing || related || anyIll
+	overlap := reqClasses(c, app, &o)
+	o.NonTrivial = competing || related || anyIll || overlap
 
-	rsp, err := f.create(c.Ctr, ann)
+	rsp, err := f.create(c.Ctr, ann, c.Req)
 	hist := map[string]any{"annotations": ann}
 	if err != nil {
 		hist["error"] = err.Error()
@@ -596,6 +607,98 @@ func judge(f *fixture, c C20Case) ev.Outcome {
 		o.Classes = append([]string{"outcome:adjusted"}, o.Classes...)
 	}
 	return o
+}
+
+// reqClasses labels how the rest of the request relates to the applicable annotations; it
+// returns whether the container's own spec shares an rlimit type, mount destination or device
+// path with them. (Labels only: the expectation never looks at the request context.)
+func reqClasses(c C20Case, app map[string]*Ann, o *ev.Outcome) bool {
+	r := c.Req
+	if r == nil {
+		o.Classes = append(o.Classes, "req:bare")
+		return false
+	}
+	o.Classes = append(o.Classes, "req:populated")
+	overlap := false
+	add := func(k string) { o.Classes = append(o.Classes, k) }
+	if a := app[famRlim]; a != nil {
+		cur := map[string]CRlim{}
+		for _, l := range r.Rlimits {
+			cur[l.Type] = l
+		}
+		same, seedShape, eqBoth := false, false, false
+		for _, u := range a.Rlimits { // values are kept for well-formed and hard_lt_soft payloads
+			l, ok := cur[normRlimit(u.Type)]
+			if !ok {
+				continue
+			}
+			same = true
+			if l.Hard == u64v(u.Hard) && l.Soft == u64v(u.Soft) {
+				eqBoth = true
+			}
+			if l.Hard == l.Soft && l.Hard == u64v(u.Hard) && u64v(u.Soft) != u64v(u.Hard) {
+				seedShape = true
+			}
+		}
+		if same {
+			overlap = true
+			add("req:rlimit_of_annotated_type")
+		}
+		if eqBoth {
+			add("req:rlimit_equal_to_annotated")
+		}
+		if seedShape {
+			add("req:rlimit_hard_eq_soft_eq_annotated_hard_soft_differs")
+			if a.Ill == "hard_lt_soft" {
+				add("req:rlimit_hard_eq_soft_eq_annotated_hard_below_soft")
+			}
+		}
+	}
+	if a := app[famMnt]; a != nil {
+		cur := map[string]bool{}
+		for _, m := range r.Mounts {
+			cur[m.Destination] = true
+		}
+		for _, m := range a.Mounts {
+			if cur[m.Destination] {
+				overlap = true
+				add("req:mount_at_annotated_destination")
+				break
+			}
+		}
+	}
+	if a := app[famDev]; a != nil {
+		cur := map[string]bool{}
+		for _, d := range r.Devices {
+			cur[d.Path] = true
+		}
+		for _, d := range a.Devices {
+			if cur[d.Path] {
+				overlap = true
+				add("req:device_at_annotated_path")
+				break
+			}
+		}
+	}
+	for k := range r.Annotations {
+		if isPluginKey(k) {
+			add("req:container_annotation_with_plugin_key")
+			break
+		}
+	}
+	for k := range r.PodAnnotations {
+		if strings.Contains(k, "nri") {
+			add("req:pod_annotation_resembling_plugin_key")
+			break
+		}
+	}
+	if len(r.Rlimits) > 0 {
+		add("req:has_rlimits")
+	}
+	if r.Res != nil {
+		add("req:has_resources")
+	}
+	return overlap
 }
 
 func descr(a *Ann) string {
